@@ -103,6 +103,15 @@ def run(ctx):
     if kind == 'stream' and ci % 3 == 0:
       seed = 0          # "all seeds": zero is a seed like any other
     buffer = rng.choice([1, 3, n + 2])
+    if kind == 'stream' and fdk == 'mem' and n % cohort != 0 and n <= 5 and ci % 3 != 0:
+      # a straddling configuration whose stream really puts one client twice into an early cohort (searched for, not hoped for)
+      fd_s, _ = c13_worker.build_fd(fedjax, 'mem', IDS[:n])
+      for cand in range(seed % 1000, seed % 1000 + 80):
+        it_s = fd_s.shuffled_clients(buffer_size=buffer, seed=cand)
+        firsts = [next(it_s)[0] for _ in range(4 * cohort)]
+        if any(len(set(firsts[k * cohort:(k + 1) * cohort])) < cohort for k in range(4)):
+          seed = cand
+          break
     pool = get_h if kind == 'get' else str_h
     hists = [pool[(ci * 131 + j) % len(pool)] for j in range(min(per_cfg if n <= 1000 else 15, len(pool)))]
     # plus longer random histories
